@@ -431,7 +431,11 @@ impl verif_rt::chrony::ChronySim for Chronyd {
             Mode::NonTracking => Ok(Reply { status: CStatus::Success, cmd: 14, sequence: 0, body: ReplyBody::Null }),
             Mode::Sync | Mode::Stale | Mode::BadLeap | Mode::FutureRef => {
                 let (off, delay, disp) = w.valid_report(e);
-                let interval = w.interval_s;
+                let mut interval = w.interval_s;
+                if w.cfg.script == 4 && w.crng.chance(12) {
+                    // what chronyd *reports* as its update interval need not be a sane positive number
+                    interval = *w.crng.pick(&[0.0f64, -0.5, -8.0, f64::NAN, 1e-3, 0.124, 1e6]);
+                }
                 let mut ref_ns = w.ref_time_ns;
                 let mut leap = *w.crng.pick(&[0u16, 0, 0, 1, 2]);
                 if w.cfg.script == 4 && mode == Mode::Stale {
